@@ -405,7 +405,7 @@ func (c *Case) Bubble(t *testing.T, budget time.Duration, hangClause string, bod
 	})
 }
 
-var frameRe = regexp.MustCompile(`(?m)^(github\.com/libp2p/go-libp2p-kad-dht[^\s(]*)\(.*\n\t(\S+):(\d+)`)
+var frameRe = regexp.MustCompile(`(?m)^(github\.com/libp2p/go-libp2p-kad-dht\S*)\(.*\n\t(\S+):(\d+)`)
 
 // TopRepoFrame returns the first function of the module under test (not a monitor file)
 // found in a stack trace, for stable panic signatures.
